@@ -1,13 +1,15 @@
 #!/bin/bash
 # development tool: re-applies every stored seeded change (or the ones named) to a scratch worktree of /repo and runs the quick
-# check of its property on it; every line must say "caught" (exit 1 with a VIOLATION line)
+# check of its property on it; every line must say "caught" (exit 1 with a VIOLATION line).  SEEDS_PAR=n runs n at a time
+# (each check then gets 16/n worker processes).
 cd /verif
 sel="$@"; [ -z "$sel" ] && sel=$(ls seeded)
-for d in $sel; do
-  d=$(basename $d); prop=$(echo $d | sed 's/^s[0-9]*_\(C[0-9][0-9]\)_.*/\1/')
-  wt=/tmp/wt-seed-$$; git -C /repo worktree add -q --detach $wt HEAD
+PAR=${SEEDS_PAR:-1}
+one() {
+  d=$(basename $1); prop=$(echo $d | sed 's/^s[0-9]*_\(C[0-9][0-9]\)_.*/\1/')
+  wt=/tmp/wt-seed-$$-$d; git -C /repo worktree add -q --detach $wt HEAD
   if git -C $wt apply /verif/seeded/$d/patch.diff 2>/dev/null; then
-    out=$(bin/check $prop --src $wt/src --no-evidence 2>&1); rc=$?
+    out=$(bin/check $prop --src $wt/src --no-evidence --jobs $((16 / PAR)) 2>&1); rc=$?
     nv=$(echo "$out" | grep -c "^VIOLATION")
     vc=$(echo "$out" | grep "^VIOLATION" | grep -c "obligation=")
     if [ $rc -eq 1 ] && [ $nv -gt 0 ]; then echo "$d caught (rc=1, $nv VIOLATION lines shown, $vc naming a verification condition) :: $(echo "$out" | tail -1 | cut -c1-200)"; else echo "$d MISSED rc=$rc :: $(echo "$out" | tail -2 | cut -c1-300)"; fi
@@ -15,4 +17,6 @@ for d in $sel; do
     echo "$d patch does not apply to the current tree"
   fi
   git -C /repo worktree remove --force $wt
-done
+}
+export -f one; export PAR
+echo $sel | tr ' ' '\n' | xargs -P $PAR -I{} bash -c 'one {}'
